@@ -60,7 +60,7 @@ def cases(draw, tier="quick"):
             return {"strings": strings, "assign": [0] * len(ts) + [1], "nsamples": 2, "position": draw(st.sampled_from(["list", "dict"])),
                     "dup": False, "opts": opts}
     return {"strings": strings, "assign": assign, "nsamples": nsamples, "position": position, "dup": dup, "opts": opts,
-            "inner": draw(st.sampled_from([False, False, True]))}
+            "inner": draw(st.sampled_from([False, False, True])), "second_position": draw(st.sampled_from([False, True]))}
 
 
 def grid_cases(tier):
@@ -91,6 +91,10 @@ def build_samples(case):
         samples = [{"f": list(b), "g": 1} for b in buckets]
     else:
         samples = [{"f": {"k%d" % i: s for i, s in enumerate(b)}, "g": 1} for b in buckets]
+    if case.get("second_position") and strings:
+        # another position of the same model sees only the first string: its Literal must not pick up the others
+        for smp in samples:
+            smp["h2"] = strings[0]
     if case.get("inner"):
         # the position sits in a non-root model and the nested layout is rendered (nested class bodies are re-indented)
         samples = [{"o": s, "h": i} for i, s in enumerate(samples)]
@@ -207,6 +211,11 @@ def check(case):
         kind = "literal-expected" if el and not gl else "literal-unexpected" if gl and not el else \
             "literal-values-differ" if gl and el else "annotation-differs"
         r.fail(kind, f"got {got!r}\nexpected {exp!r}\nplain={sorted(plain)!r} max_literals={maxlit} fw={fw}\n{src}")
+    if case.get("second_position") and strings:
+        comp2, _ = expected_component([strings[0]], opts["sreg"], fw, maxlit)
+        got2 = hints.get("h2")
+        if comp2 is not None and got2 is not None and not oracle.same_typing(got2, comp2):
+            r.fail("literal-values-leak-to-another-position", f"h2: got {got2!r}, expected {comp2!r} (only {strings[0]!r} was observed there)\n{src}")
     if (maxlit == 0 or fw == "attrs") and "Literal" in src:
         r.fail("literal-token-present", src)
     return r
